@@ -242,6 +242,9 @@ pub struct Case {
     pub authorized: bool,
     pub scenario: u8,
     pub frames: Vec<Vec<MsgSpec>>,
+    /// the attacker's connection is closed in the same backend pass that read its last messages
+    #[serde(default)]
+    pub close_after_last: bool,
 }
 
 pub fn run_mutated(c: &Case) -> Outcome {
@@ -258,6 +261,24 @@ pub fn run_mutated(c: &Case) -> Outcome {
                 nontrivial = true;
             }
             msgs.push((ch, bytes));
+        }
+        let last = fi + 1 == c.frames.len();
+        if last && c.close_after_last {
+            // messages first, then the despawn of the client entity, both before the next server frame
+            let id = sim.clients[ATTACKER].id;
+            for (ch, bytes) in &msgs {
+                sim.server.world_mut().resource_mut::<RepliconServer>().insert_received(id, *ch, bytes.clone());
+            }
+            sim.cfg.faults = true;
+            sim.step(&Step::DisconnectLate { client: ATTACKER });
+            sim.server_frame(true);
+            if let Some(f) = sim.fail.take() {
+                return Outcome::failed(f);
+            }
+            if let Some(f) = serve_check(&mut sim, fi as u32) {
+                return Outcome::failed(f);
+            }
+            break;
         }
         if let Some(f) = inject_with_honest(&mut sim, &msgs, true) {
             return Outcome::failed(f);
@@ -286,7 +307,8 @@ fn mut_strategy() -> impl Strategy<Value = Mut> {
 fn case_strategy() -> impl Strategy<Value = Case> {
     let msg = (any::<u16>(), any::<u16>(), proptest::bool::weighted(0.25), proptest::collection::vec(mut_strategy(), 0..5))
         .prop_map(|(chan, base, from_scratch, muts)| MsgSpec { chan, base, from_scratch, muts });
-    (any::<bool>(), 0u8..6, proptest::collection::vec(proptest::collection::vec(msg, 1..4), 1..3)).prop_map(|(authorized, scenario, frames)| Case { authorized, scenario, frames })
+    (any::<bool>(), 0u8..6, proptest::collection::vec(proptest::collection::vec(msg, 1..4), 1..3), proptest::bool::weighted(0.25))
+        .prop_map(|(authorized, scenario, frames, close_after_last)| Case { authorized, scenario, frames, close_after_last })
 }
 
 /// Exhaustive layer: every byte string of length 0..=len on one channel, sharing a session.
